@@ -225,12 +225,21 @@ def main(tier, seed, replay=None):
                     if not pid_alive(pid):
                         ck.broke("correspondence", "control-pid-not-alive-before", ex)
                         continue
+                    idle = gw.remote_exec("channel.receive()")      # a conversation that is open when the process dies
                     gw._io.kill()
                     t0 = time.time()
                     while pid_alive(pid) and time.time() - t0 < 5:
                         time.sleep(0.02)
                     if pid_alive(pid):
                         ck.fail("kill-does-not-reach-the-proxied-process:" + name, {**ex, "pid": pid})
+                    # the death of the process looks the same on both transports: the connection ended (EOFError), it is not an
+                    # error of the conversation
+                    seen = []
+                    for f in (lambda: idle.receive(10), lambda: idle.waitclose(5), lambda: idle.waitclose(5)):
+                        st, v = X.with_timeout(f, 20)
+                        seen.append("returns" if st == "ok" else ("blocks" if st == "timeout" else type(v).__name__))
+                    if seen != ["EOFError"] * 3 or type(getattr(gw, "_error", None)).__name__ != "EOFError":
+                        ck.fail("death-of-the-process-not-reported-as-EOFError:" + name, {**ex, "receive_waitclose_waitclose": seen, "gateway_error": type(getattr(gw, "_error", None)).__name__})
                     rc = gw._io.wait()
                     if rc not in (-9, 247, 137):
                         ck.fail("wait-does-not-report-the-proxied-process:%s:%r" % (name, rc), ex)
@@ -301,4 +310,4 @@ def main(tier, seed, replay=None):
 
         c08.real_gateways(ck, tier, only=("via",))
     ck.cov["traces_validated_against_impl"] = ck.cov.get("proxy_cases", 0)
-    return ck.finish(rule="(A) generated frame streams (payloads 0..5000 bytes over all byte values, extreme ids and types) behind the bootstrap byte, split into io-channel items as the forwarder does, at random cut points, or one byte per item, a quarter of them truncated at a random byte: the real ChannelFileRead/ProxyIO.read/Message.from_io vs the extracted model; (B) 15 transcript programs (Gateway._rinfo, typed echo of generated values, payloads up to 300 kB quick / 4 MB thorough, remote error, sub-channels, callbacks, stdout noise, module/function exec, status) on popen//python=, popen//via, popen//via//python=, socket//installvia x remote execution models vs direct popen; (C) kill / wait / exit through the proxy vs direct. distinct = (stream shape) resp. (transport, execmodel, program seed).")
+    return ck.finish(rule="(A) generated frame streams (payloads 0..5000 bytes over all byte values, extreme ids and types) behind the bootstrap byte, split into io-channel items as the forwarder does, at random cut points, or one byte per item, a quarter of them truncated at a random byte: the real ChannelFileRead/ProxyIO.read/Message.from_io vs the extracted model; (B) 15 transcript programs (Gateway._rinfo, typed echo of generated values, payloads up to 300 kB quick / 4 MB thorough, remote error, sub-channels, callbacks, stdout noise, module/function exec, status) on popen//python=, popen//via, popen//via//python=, socket//installvia x remote execution models vs direct popen; (C) kill / wait / exit through the proxy vs direct, and what an open conversation sees when the (proxied) process is killed. distinct = (stream shape) resp. (transport, execmodel, program seed).")
